@@ -67,6 +67,8 @@ pub mod radix {
             // radix >= 3: radix^dpw <= Word::MAX < 3^MAX_WORD_DIGITS_NON_POW_2
             1 <= dpw(radix) < MAX_WORD_DIGITS_NON_POW_2, 3 <= rpw(radix) < B(),
             rpw(radix) == ipow(radix as int, dpw(radix)),
+            // maximality of dpw: one more digit does not fit a word
+            rpw(radix) * (radix as int) >= B(),
     {}
 
     /// number of leading zero bits of a word as vstd specifies `leading_zeros`
